@@ -294,8 +294,18 @@ pub fn explore(seed: u64, n: usize) -> (usize, Vec<(Scenario, Verdict)>) {
     for _ in 0..n { all.push(random(&mut rng)); }
     for sc in all {
         total += 1;
-        let vd = run_scenario(&sc);
-        if !vd.violations.is_empty() { bad.push((sc, vd)); if bad.len() >= 5 { break; } }
+        // watchdog: a scenario that does not finish within 10 s of REAL time (virtual time is paused, so this is a livelock
+        // or a hang of the runtime thread) is itself a violation; the stuck thread cannot be cancelled, so exploration stops there
+        let (tx, rx) = std::sync::mpsc::channel();
+        let sc2 = sc.clone();
+        std::thread::spawn(move || { let _ = tx.send(run_scenario(&sc2)); });
+        match rx.recv_timeout(Duration::from_secs(10)) {
+            Ok(vd) => { if !vd.violations.is_empty() { bad.push((sc, vd)); if bad.len() >= 5 { break; } } }
+            Err(_) => {
+                bad.push((sc, Verdict { violations: vec!["O11 the schedule never terminates: an operation or the actor spins/hangs forever (10 s real-time watchdog on a paused-clock run)".into()], trace: vec![] }));
+                break;
+            }
+        }
     }
     (total, bad)
 }
